@@ -180,7 +180,7 @@ class Interp:
             "any": PyFunc(lambda seq: any(self.truth(x) for x in list(seq)), "any", True),
             "all": PyFunc(lambda seq: all(self.truth(x) for x in list(seq)), "all", True), "hasattr": PyFunc(self._hasattr, "hasattr", True), "format": PyFunc(format, "format"),
             "bin": PyFunc(bin, "bin"), "hex": PyFunc(hex, "hex"), "set": PyFunc(self._set, "set", True),
-            "object": ClassRef("object"), "id": PyFunc(lambda o: id(o), "id", True), "slice": PyFunc(slice, "slice"), "Ellipsis": Ellipsis,
+            "object": ClassRef("object"), "type": PyFunc(self._type, "type", True), "id": PyFunc(lambda o: id(o), "id", True), "slice": PyFunc(slice, "slice"), "Ellipsis": Ellipsis,
             "filter": PyFunc(lambda f, seq: [x for x in list(seq) if self.truth(self.call(f, [x], {}) if f is not None else x)], "filter", True),
             "map": PyFunc(lambda f, *seqs: [self.call(f, list(xs), {}) for xs in zip(*[list(q) for q in seqs])], "map", True), "iter": PyFunc(iter, "iter"), "next": PyFunc(next, "next"),
             "print": PyFunc(lambda *a, **k: None, "print", True),
@@ -277,6 +277,19 @@ class Interp:
                     return self.call_function(d, [v], {}, {}, self.instance_classes[v.kind].split(".")[0])
             return Unk("len")
         return len(v)
+
+    def _type(self, v, *rest):
+        if rest:
+            return Unk("type(name, bases, dict)")
+        if isinstance(v, GenList):
+            return ClassRef("generator")
+        if isinstance(v, Obj):
+            return ClassRef(v.kind)
+        if isinstance(v, T):
+            return ClassRef(v.cls)
+        if isinstance(v, (Unk, Closure, PyFunc, Bound, ClassRef)):
+            return Unk("type")
+        return ClassRef(type(v).__name__)
 
     def _getattr(self, o, n, *default):
         if default:
@@ -394,7 +407,9 @@ class Interp:
                     return True
                 continue
             if name in ("Callable",):
-                if isinstance(v, (Closure, PyFunc, Bound)):
+                if isinstance(v, (Closure, PyFunc, Bound)) or (isinstance(v, Obj) and v.call is not None):
+                    return True
+                if isinstance(v, Obj) and v.kind in self.instance_classes and self._class_def(v.kind, "__call__") is not None:
                     return True
                 continue
             if isinstance(v, Obj):
@@ -688,6 +703,26 @@ class Interp:
         qual = self.plain_classes[name]
         self.instance_classes[name] = qual
         o = Obj(name)
+        if any(un(b) in ("dict", "collections.UserDict", "UserDict") for b in self.repo.cls(qual).bases):
+            store = {}
+            o.attrs["__store__"] = store
+            module = qual.split(".")[0]
+
+            def getitem(key, o=o, store=store):
+                if key in store:
+                    return store[key]
+                missing = self._class_def(name, "__missing__")
+                if isinstance(missing, ast.FunctionDef):
+                    return self.call_function(missing, [o, key], {}, {}, module)
+                raise Raised("KeyError")
+            o.getitem = getitem
+            o.methods["setitem"] = lambda k, v, store=store: store.__setitem__(k, v)
+            o.methods["get"] = lambda k, d=None, store=store: store.get(k, d)
+            o.methods["__len__"] = lambda store=store: len(store)
+            o.methods["__contains__"] = lambda k, store=store: k in store
+            o.methods["keys"] = lambda store=store: list(store.keys())
+            o.methods["items"] = lambda store=store: list(store.items())
+            o.methods["values"] = lambda store=store: list(store.values())
         init = self._class_def(name, "__init__")
         if isinstance(init, ast.FunctionDef):
             self.call_function(init, [o] + list(args), kwargs, {}, qual.split(".")[0])
@@ -1186,6 +1221,9 @@ class Interp:
                             return r
                         r = self.truth(r, node)
                         return r if isinstance(op, ast.Eq) else not r
+        if isinstance(op, (ast.In, ast.NotIn)) and isinstance(b, Obj) and "__contains__" in b.methods and not isinstance(a, Unk):
+            r = bool(b.methods["__contains__"](a))
+            return r if isinstance(op, ast.In) else not r
         if isinstance(a, (Unk, T, Obj)) or isinstance(b, (Unk, T, Obj)):
             if isinstance(op, (ast.Is, ast.IsNot)):
                 r = a is b
